@@ -78,24 +78,36 @@ def _same_bytes(a, b):
 
 def explained_by_route(rep_a, rep_b, dc):
     """True iff two reports differ only in route-dependent files and in what follows from their presence: per
-    content class the other members agree, or the class is absent from one report and has a route-dependent member."""
+    content class the other members agree, or the class is absent from one report and has a route-dependent member
+    (or, under --unique / --rf-under, lacks one). Classes are identified by their members outside the route-dependent
+    set, not by the printed hash, so that runs under different hash functions can be compared."""
     def classes(rep):
-        return {(g[0], g[1]): set(g[2]) for g in reports.body(rep)}
-    a, b = classes(rep_a), classes(rep_b)
-    differs = False
+        out = {}
+        rest_only_dc = []
+        for g in reports.body(rep):
+            members = set(g[2])
+            key = (g[0], frozenset(members - dc))
+            if members - dc:
+                out[key] = members
+            else:
+                rest_only_dc.append(members)
+        return out, rest_only_dc
+    (a, a_dc), (b, b_dc) = classes(rep_a), classes(rep_b)
+    sets_a = sorted(sorted(m) for m in list(a.values()) + a_dc)
+    sets_b = sorted(sorted(m) for m in list(b.values()) + b_dc)
+    if sets_a == sets_b:
+        return False  # no difference in the sets of paths: nothing for the route to explain
     for key in set(a) | set(b):
         ma, mb = a.get(key), b.get(key)
-        if ma == mb:
-            continue
-        differs = True
-        union = (ma or set()) | (mb or set())
-        if not (union & dc):
-            # under --unique / --rf-under a class shows up because a route-dependent member was *not* seen
-            if not ((ma is None or mb is None) and any(_same_bytes(d_, next(iter(union))) for d_ in dc)):
-                return False
-        if ma is not None and mb is not None and (ma - dc) != (mb - dc):
+        if ma is not None and mb is not None:
+            continue  # same members outside the route-dependent set
+        union = ma or mb
+        if union & dc:
+            continue  # reported or not depending on whether its route-dependent member was seen
+        # under --unique / --rf-under a class shows up because a route-dependent member was *not* seen
+        if not any(_same_bytes(d_, next(iter(union))) for d_ in dc):
             return False
-    return differs
+    return True
 
 
 def run_case(arg):
